@@ -4,7 +4,7 @@
    is_best_response, best_response with tie_breaking='smallest').  Generic over Base.Num.Num.
    Executable definitions only; proofs live in Proofs.v. *)
 From Coq Require Import ZArith QArith Qabs List Bool PrimFloat.
-From QE Require Import Base.Num.
+From QE Require Import Base.Num Base.Pivot C05.Model.
 Import ListNotations.
 
 (* ------------------------------------------------------------------ compute_fixed_point, iteration *)
@@ -113,3 +113,176 @@ Definition best_response_selection (g : list (list T)) (nums : list nat) (x : li
                           (best_response (payoff_vector (nth i g []) (opponents i prof)) br_tol))
               (seq 0 (length g))).
 End Games.
+
+(* ------------------------------------------------------------------ imitation-game method
+   _compute_fp.py::_compute_fixed_point_ig on top of the Lemke-Howson model of C05 (lh_tbl, lh_mixed_actions):
+   the buffers X, Y are lists that grow (buffer doubling is not observable). *)
+Section ImitationGame.
+Context {T : Type} {NT : Num T}.
+Variables tol_piv tol_ratio_diff : T.        (* pivoting.TOL_PIV, TOL_RATIO_DIFF *)
+Variable Top : list T -> list T.
+Variable is_approx_fp : list T -> bool.
+
+(* _square_sum: sum_ = 0; for x in a.flat: sum_ += x**2 *)
+Definition sqsum (d : list T) : T := fold_left (fun s x => nadd s (nmul x x)) d nzero.
+Definition vsub2 (a b : list T) : list T := map2 nsub a b.
+
+(* _initialize_tableaux_ig(X, Y, tableaux, bases) *)
+Definition ig_tableaux (X Y : list (list T)) : lhstate :=
+  let m := length X in
+  let D := tab m m (fun i j => nmul (sqsum (vsub2 (nth i X []) (nth j Y []))) (nsub nzero none_)) in
+  let mins := tabv m (fun j => fold_left (fun mn i => let t := get D i j in if nltb t mn then t else mn) (seq 0 m) nzero) in
+  let t0 := tab m (2 * m + 1)
+              (fun i j => if j <? 2 * m then (if (j =? i) || (j =? i + m) then none_ else nzero) else none_)%nat in
+  let t1 := tab m (2 * m + 1)
+              (fun i j => if j <? m then (if j =? i then none_ else nzero)
+                          else if j <? 2 * m then nadd (nsub (get D i (j - m)) (nth (j - m) mins nzero)) none_
+                          else none_)%nat in
+  (t0, t1, map (fun i => (m + i)%nat) (seq 0 m), seq 0 m).
+
+(* rho.dot(Y[:m]) *)
+Definition combine_images (rho : list T) (Y : list (list T)) (d : nat) : list T :=
+  tabv d (fun k => fold_left (fun s i => nadd s (nmul (nth i rho nzero) (nth k (nth i Y []) nzero))) (seq 0 (length Y)) nzero).
+
+Definition ig_next (X Y : list (list T)) (d : nat) : list T :=
+  let m := length X in
+  let '(st, _, _) := lh_tbl tol_piv tol_ratio_diff m (ig_tableaux X Y) (m - 1) 1000000 in
+  combine_images (snd (lh_mixed_actions m m st)) Y d.
+
+(* the `while True` loop; state at loop head: X, Y hold iterate-1 points/images, x_new the current point *)
+Fixpoint ig_loop (fuel : nat) (iterate : Z) (X Y : list (list T)) (x_new : list T) (max_iter : Z)
+  : option (list T * bool * Z) :=
+  match fuel with
+  | O => None
+  | S k =>
+    let y_new := Top x_new in
+    let it := (iterate + 1)%Z in
+    let conv := is_approx_fp x_new in
+    if conv || (max_iter <=? it)%Z then Some (x_new, conv, it)
+    else
+      let X' := X ++ [x_new] in
+      let Y' := Y ++ [y_new] in
+      ig_loop k it X' Y' (ig_next X' Y' (length x_new)) max_iter
+  end.
+
+(* returns (x_star, converged, iterate); None = model fuel exhausted (never with fuel = max_iter) *)
+Definition compute_fixed_point_ig (v : list T) (max_iter : Z) : option (list T * bool * Z) :=
+  let y := Top v in
+  let conv := is_approx_fp v in
+  if conv || (max_iter <=? 1)%Z then Some (v, conv, 1%Z)
+  else ig_loop (Z.to_nat max_iter) 1 [v] [y] y max_iter.
+End ImitationGame.
+
+(* compute_fixed_point(method='imitation_game'): is_approx_fp v = (max|T(v) - v| <= error_tol); returns v_star *)
+Definition compute_fixed_point_igm {T} {NT : Num T} (tol_piv tol_ratio_diff : T) (nabs : T -> T)
+           (Top : list T -> list T) (v : list T) (error_tol : T) (max_iter : Z) : option (list T * bool * Z) :=
+  if (max_iter <? 1)%Z then None
+  else compute_fixed_point_ig tol_piv tol_ratio_diff Top (fun x => nleb (supdist nabs (Top x) x) error_tol) v max_iter.
+
+(* mclennan_tourky(g, init, epsilon, max_iter, full_output=True) on the flat initial profile x_init *)
+Definition mclennan_tourky {T} {NT : Num T} (tol_piv tol_ratio_diff : T) (g : list (list T)) (nums : list nat)
+           (x_init : list T) (eps br_tol : T) (max_iter : Z) : option (list T * bool * Z) :=
+  compute_fixed_point_ig tol_piv tol_ratio_diff
+    (fun x => best_response_selection g nums x br_tol) (fun x => is_epsilon_nash g nums x eps) x_init max_iter.
+
+(* ------------------------------------------------------------------ polym_lcp_solver (howson_lcp.py)
+   pms[i][j] = polymatrix[(i, j)] (nums_i x nums_j, the diagonal entries pms[i][i] are ignored);
+   two = LOW_AVOIDER.  The nested while loops are one step function iterated with a step budget. *)
+Section Polym.
+Context {T : Type} {NT : Num T}.
+Variables tol_piv tol_ratio_diff : T.
+Notation mat := (list (list T)).
+
+Definition sumn_ (l : list nat) : nat := fold_left Nat.add l O.
+Definition offs (nums : list nat) (p : nat) : nat := sumn_ (firstn p nums).
+(* owner of flat action index r < sum nums: (player, local action) *)
+Fixpoint locate (nums : list nat) (p r : nat) : nat * nat :=
+  match nums with
+  | [] => (p, r)
+  | k :: rest => if r <? k then (p, r) else locate rest (S p) (r - k)
+  end.
+
+Definition polym_max (N : nat) (pms : list (list mat)) : T :=
+  let entries := concat (map (fun i => concat (map (fun j => if i =? j then [] else concat (nth j (nth i pms []) []))
+                                                   (seq 0 N))) (seq 0 N)) in
+  match entries with [] => nzero | x :: r => fold_left nmax r x end.
+
+Definition polym_tableau (nums : list nat) (pms : list (list mat)) (two : T) : mat :=
+  let N := length nums in
+  let total := sumn_ nums in
+  let n := (total + N)%nat in
+  let pcm := nadd (polym_max N pms) two in
+  let neg1 := nsub nzero none_ in
+  let M := fun r c =>
+    if r <? total then
+      let '(p, a) := locate nums 0 r in
+      if c <? total then
+        let '(p2, a2) := locate nums 0 c in
+        if p2 =? p then nzero else nsub pcm (nth a2 (nth a (nth p2 (nth p pms []) []) []) nzero)
+      else if c - total =? p then neg1 else nzero
+    else
+      let p := (r - total)%nat in
+      if c <? total then (if fst (locate nums 0 c) =? p then none_ else nzero) else nzero in
+  tab n (2 * n + 1) (fun i j => if j <? n then (if i =? j then none_ else nzero)
+                                else if j <? 2 * n then nsub nzero (M i (j - n))
+                                else if i <? total then nzero else neg1)%nat.
+
+Record pstate := { ptab : mat; pbasis : list nat; pp : nat; pretro : bool; pinner : option nat; piter : Z }.
+Inductive pres := PDone (t : mat) (b : list nat) (converging : bool) (num_iter : Z)
+                | PNegPlayer.       (* p -= 1 at p = 0: the source would index with p = -1 *)
+
+Definition polym_step (nums starts : list nat) (max_iter : Z) (s : pstate) : pstate + pres :=
+  let N := length nums in
+  let total := sumn_ nums in
+  let n := (total + N)%nat in
+  let p := pp s in
+  let fv := (total + n + p)%nat in
+  let fx := (n + offs nums p + nth p starts O)%nat in
+  let fy := (fx - n)%nat in
+  match pinner s with
+  | None =>
+    if p <? N then
+      let pivcol := if negb (pretro s) then fv else if existsb (Nat.eqb fy) (pbasis s) then fx else fy in
+      inl {| ptab := ptab s; pbasis := pbasis s; pp := p; pretro := false; pinner := Some pivcol; piter := piter s |}
+    else inr (PDone (ptab s) (pbasis s) true (piter s))
+  | Some pivcol =>
+    if (piter s =? max_iter)%Z then inr (PDone (ptab s) (pbasis s) false (piter s))
+    else
+      let pivrow := snd (lex_min_ratio_test (ptab s) pivcol 0 tol_piv tol_ratio_diff) in
+      let t' := pivoting (ptab s) pivcol pivrow in
+      let leaving := nth pivrow (pbasis s) O in
+      let b' := set_nth (pbasis s) pivrow pivcol in
+      let it := (piter s + 1)%Z in
+      if (leaving =? fx) || (leaving =? fy) then
+        inl {| ptab := t'; pbasis := b'; pp := S p; pretro := false; pinner := None; piter := it |}
+      else if leaving =? fv then
+        match p with
+        | O => inr PNegPlayer
+        | S p' => inl {| ptab := t'; pbasis := b'; pp := p'; pretro := true; pinner := None; piter := it |}
+        end
+      else
+        inl {| ptab := t'; pbasis := b'; pp := p; pretro := pretro s;
+               pinner := Some (if leaving <? n then leaving + n else leaving - n)%nat; piter := it |}
+  end.
+
+(* result: (NE as the list of the players' mixed actions, converged, num_iter); None = p went negative / budget *)
+Definition polym_lcp_solver (nums starts : list nat) (pms : list (list mat)) (two : T) (max_iter : Z)
+  : option (list (list T) * bool * Z) :=
+  let N := length nums in
+  let total := sumn_ nums in
+  let n := (total + N)%nat in
+  let t0 := polym_tableau nums pms two in
+  let '(t1, b1) := fold_left (fun (tb : mat * list nat) player =>
+                     let '(t, b) := tb in
+                     let row := (total + player)%nat in
+                     let col := (n + offs nums player + nth player starts O)%nat in
+                     (pivoting t col row, set_nth b row col)) (seq 0 N) (t0, seq 0 n) in
+  match iter_pos (polym_step nums starts max_iter) (Z.to_pos (2 * Z.max max_iter 1 + 2 * Z.of_nat N + 4))
+                 {| ptab := t1; pbasis := b1; pp := 0; pretro := false; pinner := None; piter := 0 |} with
+  | inr (PDone t b conv ni) =>
+    let z := tabv n (fun k => match find (fun i => nth i b O =? n + k) (seq 0 n) with
+                              | Some i => get t i (2 * n) | None => nzero end) in
+    Some (map (fun pl => firstn (nth pl nums O) (skipn (offs nums pl) z)) (seq 0 N), conv, ni)
+  | _ => None
+  end.
+End Polym.
